@@ -437,6 +437,8 @@ def _offset_shape(B, c):
             return True
         if x[0] == 'local' and (B.local_name(x[1]) or '') == 'original_len':
             return True
+        if x[0] == 'place' and x[2] and str(x[2][-1]) == 'original_len':
+            return True          # the total kept as a field of a cursor / context struct
         return False
     if c[0] == 'bin' and c[1] == 'Sub':
         a, b = c[2], c[3]
